@@ -720,6 +720,10 @@ func goCode(root string, unit string) string {
 		header("Model.GoSem")
 		text, errs := translateMime(parseFile(root, "mime/mime.go"), "MediaType", []string{"Default", "Unknown", "UnknownSubtype", "Parse", "Update", "Matches"})
 		emit("mime/mime.go (struct, constructors, Parse, Update, Matches)", text, errs)
+	case "jtp":
+		header("Model.GoSem", "Model.GoIO")
+		text, errs := translateJtp(parseFile(root, "jtp/jtp.go"), []string{"parseStatusLine", "parseContentType", "parseLocation", "validateHeaders", "findLocation", "Get"})
+		emit("jtp/jtp.go (the response readers and what Get makes of a response)", text, errs)
 	default:
 		b.WriteString("-- unknown unit " + unit + "\n")
 	}
